@@ -157,12 +157,12 @@ func withinPool(pool *workerpool.WorkerPool, idle func() time.Duration, d time.D
 		defer close(done)
 		f()
 	}()
-	deadline := time.Now().Add(eff(d))
+	t0 := time.Now()
 	for {
 		if waitChan(done, 250*time.Millisecond) {
 			return true
 		}
-		if time.Now().After(deadline) {
+		if time.Since(t0) > eff(d) {
 			hangs.expired(d)
 
 			return false
@@ -285,15 +285,39 @@ func within(d time.Duration, f func()) bool {
 		defer close(done)
 		f()
 	}()
-	t := time.NewTimer(eff(d))
-	defer t.Stop()
-	select {
-	case <-done:
+	if waitDone(done, d) {
 		return true
-	case <-t.C:
-		hangs.expired(d)
+	}
+	hangs.expired(d)
 
-		return false
+	return false
+}
+
+// waitDone waits for c up to the bound that is in force for a wait written with bound d — re-evaluated while waiting:
+// a long wait that is in flight when a hang is confirmed elsewhere in the process is cut down to the shortened bound too.
+func waitDone(c <-chan struct{}, d time.Duration) bool {
+	if d < bound {
+		t := time.NewTimer(d)
+		defer t.Stop()
+		select {
+		case <-c:
+			return true
+		case <-t.C:
+			return false
+		}
+	}
+	start := time.Now()
+	tick := time.NewTicker(200 * time.Millisecond)
+	defer tick.Stop()
+	for {
+		select {
+		case <-c:
+			return true
+		case <-tick.C:
+			if time.Since(start) > eff(d) {
+				return false
+			}
+		}
 	}
 }
 
@@ -590,14 +614,10 @@ func unpark(w *workerpool.WorkerPool) {
 }
 
 func waitChan(c chan struct{}, d time.Duration) bool {
-	t := time.NewTimer(eff(d))
-	defer t.Stop()
-	select {
-	case <-c:
+	if waitDone(c, d) {
 		return true
-	case <-t.C:
-		hangs.expired(d)
-
-		return false
 	}
+	hangs.expired(d)
+
+	return false
 }
